@@ -73,7 +73,11 @@ NlaKind(sys) == sys.nla
 Faults(sys) == {[kind |-> NoneS, name |-> NoneS]}
     \cup {[kind |-> "stateNoInit", name |-> sys.classes[i].name] : i \in {k \in DOMAIN sys.classes : sys.classes[k].role = "state"}}
     \cup {[kind |-> "constNoInit", name |-> sys.classes[i].name] : i \in {k \in DOMAIN sys.classes : sys.classes[k].role = "const"}}
-    \* (a second equation for a variable, or an initial value on a computed variable, is not a fault with a defined ground truth:
+    \* the ODE of a state listed twice (the second copy with another constant term), where the ODE reads nothing but states and the
+    \* variable of integration: no variable is left that the second copy could be taken to compute - over-constrained
+    \cup {[kind |-> "duplicateOde", name |-> sys.classes[i].name] : i \in {k \in DOMAIN sys.classes : sys.classes[k].role = "state"
+              /\ \A j \in DOMAIN sys.classes[k].deps : sys.classes[k].deps[j] = "t" \/ (\E q \in DOMAIN sys.classes : sys.classes[q].name = sys.classes[k].deps[j] /\ sys.classes[q].role = "state")}}
+    \* (a second equation for any other variable, or an initial value on a computed variable, is not a fault with a defined ground truth:
     \*  the analyser may legitimately read any initialised variable of the system as an unknown with an initial guess)
 \* "diffOfSum" is not a fault: the ODE of the named state is written d(x + 0)/dt = ... (the derivative of an expression), which
 \* means the same as dx/dt = ...
